@@ -90,6 +90,25 @@ func kCatalogue() [][]byte {
 		k[bit/8] = 1 << uint(bit%8)
 		ks = append(ks, k)
 	}
+	// scalars that are special with respect to the GROUP rather than to their bit pattern: clamped values jL + e (a
+	// multiple of 8 in [2^254, 2^255), so j = 4..7) act on the base point like the small integer e: e = -1 and 1 give
+	// the generator's own u-coordinate back, e = +-2 the doubling, e = 0 cannot occur for the prime-order base point but
+	// makes points of the subgroup vanish in the variable-base ladder when the peer's point has small cofactor part.
+	// Each in two raw forms (already clamped; low bits and bit 255 set, which clamping removes again)
+	for j := int64(4); j <= 7; j++ {
+		for e := int64(-40); e <= 40; e++ {
+			k := new(big.Int).Add(new(big.Int).Mul(big.NewInt(j), ref.L), big.NewInt(e))
+			if k.Bit(0) != 0 || k.Bit(1) != 0 || k.Bit(2) != 0 || k.BitLen() != 255 {
+				continue
+			}
+			raw := ref.LE32(k)
+			ks = append(ks, raw)
+			raw2 := append([]byte{}, raw...)
+			raw2[0] |= byte(1 + (j+e+80)%7)
+			raw2[31] |= 0x80
+			ks = append(ks, raw2)
+		}
+	}
 	return ks
 }
 
